@@ -66,10 +66,12 @@ func c18FlightInterp(t *testing.T, c c18Case) kit.Verdict {
 	c18CaseClasses(v, c)
 	var overlap atomic.Int32
 	log, res := c18PlayRounds(t, c, true, func(clk *c18Clock, log *c18Log) (func(g, i int, op c18Op), func()) {
-		sf := syncx.NewSingleFlight()
+		sfs := []syncx.SingleFlight{syncx.NewSingleFlight(), syncx.NewSingleFlight()}
 		var nexec atomic.Int64
-		inside := make([]atomic.Int32, 3)
+		inside := make([]atomic.Int32, 3*c18Inst)
 		return func(g, i int, op c18Op) {
+			sf, name := sfs[op.M], c18KeyName(op.Key) // both groups use the same key strings
+			op.Key = c18EffKey(op)                    // the oracle's key is (instance, key)
 			ev := c18Ev{G: g, I: i, Op: op}
 			fn := c18FlightFn(clk, log, &nexec, inside, &overlap, g, i, op, &ev)
 			var val interface{}
@@ -77,9 +79,9 @@ func c18FlightInterp(t *testing.T, c c18Case) kit.Verdict {
 			ev.Inv = clk.now()
 			pan, foreign := c18Try(func() {
 				if op.K == "doex" {
-					val, ev.Fresh, err = sf.DoEx(c18KeyName(op.Key), fn)
+					val, ev.Fresh, err = sf.DoEx(name, fn)
 				} else {
-					val, err = sf.Do(c18KeyName(op.Key), fn)
+					val, err = sf.Do(name, fn)
 				}
 			})
 			ev.Ret = clk.now()
@@ -260,11 +262,13 @@ func c18JudgeFlight(v *c18V, log *c18Log, what string, checkFresh bool) {
 }
 
 func c18FlightGen(rt *rapid.T) c18Case {
-	return c18Case{Gs: c18GenGs(rt, 4, func(rt *rapid.T, burst bool) c18Op {
+	c := c18Case{Gs: c18GenGs(rt, 4, func(rt *rapid.T, burst bool) c18Op {
 		op := c18Op{K: rapid.SampledFrom([]string{"do", "do", "doex"}).Draw(rt, "k"), Key: c18Key(rt), H: c18Hold(rt)}
 		op.A = c18Outcome(rt)
 		return op
 	})}
+	c18DrawInstances(rt, c.Gs)
+	return c
 }
 
 func TestVerif_C18_singleflight(t *testing.T) {
@@ -281,16 +285,18 @@ func c18LockedInterp(t *testing.T, c c18Case) kit.Verdict {
 	c18CaseClasses(v, c)
 	var overlap atomic.Int32
 	log, res := c18PlayRounds(t, c, true, func(clk *c18Clock, log *c18Log) (func(g, i int, op c18Op), func()) {
-		lc := syncx.NewLockedCalls()
+		lcs := []syncx.LockedCalls{syncx.NewLockedCalls(), syncx.NewLockedCalls()}
 		var nexec atomic.Int64
-		inside := make([]atomic.Int32, 3)
+		inside := make([]atomic.Int32, 3*c18Inst)
 		return func(g, i int, op c18Op) {
+			lc, name := lcs[op.M], c18KeyName(op.Key)
+			op.Key = c18EffKey(op)
 			ev := c18Ev{G: g, I: i, Op: op}
 			fn := c18FlightFn(clk, log, &nexec, inside, &overlap, g, i, op, &ev)
 			var val interface{}
 			var err error
 			ev.Inv = clk.now()
-			pan, foreign := c18Try(func() { val, err = lc.Do(c18KeyName(op.Key), fn) })
+			pan, foreign := c18Try(func() { val, err = lc.Do(name, fn) })
 			ev.Ret = clk.now()
 			c18NotePanic(&ev, pan, foreign)
 			ev.Val, ev.Err = c18ValTag(val), c18ErrTag(err)
@@ -330,6 +336,26 @@ func c18LockedInterp(t *testing.T, c c18Case) kit.Verdict {
 		}
 		if ev.Val != ev.Exec || ev.Err != wantErr {
 			v.failf("%s executed as execution %d but returned value tag %d / error tag %d", name, ev.Exec, ev.Val, ev.Err)
+		}
+	}
+	// a call that no other call of its own group and key overlaps finds nothing
+	// in flight and starts executing at once (groups do not wait for each other)
+	for _, ev := range log.evs {
+		alone := ev.NExec == 1
+		for _, o := range log.evs {
+			if (o.G != ev.G || o.I != ev.I) && o.Op.Key == ev.Op.Key && o.Inv.S < ev.Ret.S && ev.Inv.S < o.Ret.S {
+				alone = false
+			}
+		}
+		if b, ok := c18ExecOf(log, ev.Exec); alone && ok {
+			for _, o := range log.execs {
+				if o.Key != ev.Op.Key && o.Key%3 == ev.Op.Key%3 && o.Start.S < b.Start.S && o.End.T > ev.Inv.T && o.End.T > o.Start.T {
+					v.class("same-key-held-in-the-other-group-meanwhile")
+				}
+			}
+			if b.Start.T != ev.Inv.T {
+				v.failf("locked-calls: call g%d#%d(group %d key %d) was invoked at t=%v with no other call of its group and key in flight, but its execution started only at t=%v", ev.G, ev.I, ev.Op.Key/3, ev.Op.Key%3, ev.Inv.T, b.Start.T)
+			}
 		}
 	}
 	waiters := map[int]int{}
@@ -377,11 +403,13 @@ func c18ExecOf(log *c18Log, id int) (c18Exec, bool) {
 }
 
 func c18LockedGen(rt *rapid.T) c18Case {
-	return c18Case{Gs: c18GenGs(rt, 4, func(rt *rapid.T, burst bool) c18Op {
+	c := c18Case{Gs: c18GenGs(rt, 4, func(rt *rapid.T, burst bool) c18Op {
 		op := c18Op{K: "do", Key: c18Key(rt), H: c18Hold(rt)}
 		op.A = c18Outcome(rt)
 		return op
 	})}
+	c18DrawInstances(rt, c.Gs)
+	return c
 }
 
 func TestVerif_C18_lockedcalls(t *testing.T) {
@@ -416,10 +444,13 @@ func c18ManagerInterp(t *testing.T, c c18Case) kit.Verdict {
 	var mu sync.Mutex
 	var closers []*c18Closer
 	var closeErr error
+	closedAfterFirst := map[int]int32{}
 	log, res := c18PlayRounds(t, c, true, func(clk *c18Clock, log *c18Log) (func(g, i int, op c18Op), func()) {
-		m := syncx.NewResourceManager()
+		ms := []*syncx.ResourceManager{syncx.NewResourceManager(), syncx.NewResourceManager()}
 		var nexec atomic.Int64
 		return func(g, i int, op c18Op) {
+				m, name := ms[op.M], c18KeyName(op.Key) // both managers use the same key strings
+				op.Key = c18EffKey(op)                  // the oracle's key is (manager, key)
 				ev := c18Ev{G: g, I: i, Op: op}
 				create := func() (io.Closer, error) {
 					id := int(nexec.Add(1))
@@ -444,7 +475,7 @@ func c18ManagerInterp(t *testing.T, c c18Case) kit.Verdict {
 				var r io.Closer
 				var err error
 				ev.Inv = clk.now()
-				pan, foreign := c18Try(func() { r, err = m.Get(c18KeyName(op.Key), create) })
+				pan, foreign := c18Try(func() { r, err = m.Get(name, create) })
 				ev.Ret = clk.now()
 				ev.Pan = pan
 				if foreign != nil {
@@ -459,7 +490,14 @@ func c18ManagerInterp(t *testing.T, c c18Case) kit.Verdict {
 				}
 				log.ev(ev)
 			}, func() {
-				closeErr = m.Close()
+				// each manager closes its own resources, all of them, and only them
+				closeErr = ms[0].Close()
+				mu.Lock()
+				for _, cl := range closers {
+					closedAfterFirst[cl.id] = cl.closed.Load()
+				}
+				mu.Unlock()
+				_ = ms[1].Close()
 			}
 	})
 	_ = closeErr
@@ -604,7 +642,10 @@ func c18ManagerInterp(t *testing.T, c c18Case) kit.Verdict {
 	if res.OK() {
 		for _, cl := range closers {
 			if n := cl.closed.Load(); n != 1 {
-				v.failf("resource-manager: resource %d of key %d was closed %d times by Close, want exactly once", cl.id, cl.key, n)
+				v.failf("resource-manager: resource %d of manager %d key %d was closed %d times after both managers were closed, want exactly once", cl.id, cl.key/3, cl.key%3, n)
+			}
+			if want := int32(1 - cl.key/3); closedAfterFirst[cl.id] != want {
+				v.failf("resource-manager: after closing manager 0 only, resource %d of manager %d key %d had been closed %d times, want %d (a manager closes all of its own resources and no others)", cl.id, cl.key/3, cl.key%3, closedAfterFirst[cl.id], want)
 			}
 		}
 		if len(closers) > 1 {
@@ -615,11 +656,13 @@ func c18ManagerInterp(t *testing.T, c c18Case) kit.Verdict {
 }
 
 func c18ManagerGen(rt *rapid.T) c18Case {
-	return c18Case{Gs: c18GenGs(rt, 4, func(rt *rapid.T, burst bool) c18Op {
+	c := c18Case{Gs: c18GenGs(rt, 4, func(rt *rapid.T, burst bool) c18Op {
 		op := c18Op{K: "get", Key: c18Key(rt), H: c18Hold(rt)}
 		op.A = rapid.SampledFrom([]int{0, 0, 0, 1, 1, 2}).Draw(rt, "outcome")
 		return op
 	})}
+	c18DrawInstances(rt, c.Gs)
+	return c
 }
 
 func TestVerif_C18_resourcemanager(t *testing.T) {
